@@ -1747,17 +1747,26 @@ func decodeExtendedUserFlow(data *[]byte) (SFlowExtendedUserFlow, error) {
 	var dstUserLenWithPad int
 	var dstUserBytes []byte
 
+	if len(*data) < 16 {
+		return eu, errors.New("extended user flow record too small")
+	}
 	*data, fdf = (*data)[4:], SFlowFlowDataFormat(binary.BigEndian.Uint32((*data)[:4]))
 	eu.EnterpriseID, eu.Format = fdf.decode()
 	*data, eu.FlowDataLength = (*data)[4:], binary.BigEndian.Uint32((*data)[:4])
 	*data, eu.SourceCharSet = (*data)[4:], SFlowCharSet(binary.BigEndian.Uint32((*data)[:4]))
 	*data, srcUserLen = (*data)[4:], binary.BigEndian.Uint32((*data)[:4])
 	srcUserLenWithPad = int(srcUserLen + ((4 - srcUserLen) % 4))
+	if srcUserLen > uint32(len(*data)) || srcUserLenWithPad > len(*data)-8 {
+		return eu, errors.New("extended user flow record too small for source user")
+	}
 	*data, srcUserBytes = (*data)[srcUserLenWithPad:], (*data)[:srcUserLenWithPad]
 	eu.SourceUserID = string(srcUserBytes[:srcUserLen])
 	*data, eu.DestinationCharSet = (*data)[4:], SFlowCharSet(binary.BigEndian.Uint32((*data)[:4]))
 	*data, dstUserLen = (*data)[4:], binary.BigEndian.Uint32((*data)[:4])
 	dstUserLenWithPad = int(dstUserLen + ((4 - dstUserLen) % 4))
+	if dstUserLen > uint32(len(*data)) || dstUserLenWithPad > len(*data) {
+		return eu, errors.New("extended user flow record too small for destination user")
+	}
 	*data, dstUserBytes = (*data)[dstUserLenWithPad:], (*data)[:dstUserLenWithPad]
 	eu.DestinationUserID = string(dstUserBytes[:dstUserLen])
 	return eu, nil
